@@ -22,9 +22,10 @@ EVIDENCE = {
              'write over an EATT bearer, server-side indicate awaiting confirmation, pair(), encrypt(), LE CoC connect / disconnect / write+drain, '
              'connection parameter update over L2CAP, remote LE / classic features, remote name, classic channel connect / disconnect, ERTM '
              'transfer, RFCOMM multiplexer start / DLC open / transfer+drain, SDP query with continuation, AVDTP discover, a pending LE or BR/EDR '
-             'connect, a pending disconnect, two queued HCI commands; 40% of the cases add a second idle connection on the initiator device. A fault-free dry run counts the N messages the procedure puts on the '
+             'connect, a pending disconnect, two queued HCI commands, eSCO set-up / disconnect, CIS create / disconnect (with waiters on the end of the link), '
+             'RFCOMM shutdown under a DLC with queued data, an enhanced ATT bearer closed while the connection goes away; 40% of the cases add a second idle connection on the initiator device. A fault-free dry run counts the N messages the procedure puts on the '
              'air; the procedure is then re-run once for EVERY k in 0..N with the drawn fault (disconnect by the initiator side, disconnect by '
-             'the responder side, link loss reported on both sides, HCI transport loss on the initiator, transport loss on the responder) fired '
+             'the responder side, link loss reported on both sides, HCI transport loss on the initiator, transport loss on the responder, Device.power_off() on either side) fired '
              'right after air message k. evaluations = executions (dry run + one per k). Boundaries are air messages or, for transport loss, the HCI packets read by the host that loses its transport; some cases stall a host during the fault. Scenario reuse: CCCD write + disconnection + a new connection that gets the same handle, all read by the stalled server host in one burst. Non-trivial: the fault landed while the procedure '
              'was still in flight; distinct = distinct (procedure, fault kind, k, profile).'),
     'real': ['bumble.device', 'bumble.host', 'bumble.controller', 'bumble.link', 'bumble.l2cap', 'bumble.gatt_client', 'bumble.gatt_server', 'bumble.smp',
